@@ -1056,7 +1056,10 @@ def run_probe(fn, bn, prm, ctx, aux, partial, first_aux=None):
             cur = nb
             applied.append(key)
             o2 = Obs()
-            fn(cur, prm, o2, ctx, aux)
+            aux_r = aux
+            if first_aux and first_aux.get("shared_model") is not None:     # re-runs re-use one (new) model object too
+                aux_r = dict(first_aux, shared_model=build_bn(cur, aux["build_seed"]))
+            fn(cur, prm, o2, ctx, aux_r)
             obs.note("neutralised_reruns")
             left = [w for w in o2.viol if not any(k in w["attrib"] for k in OPTION_KEYS)]
             triggers |= {k for w in left for k in w["attrib"]}   # a re-labelling can expose another known trigger
